@@ -23,7 +23,7 @@ RULE = ('Cases: (P, tau) with P substitution-free and I = P[tau] computed by O1 
 ASSUMPTIONS = ['completeness is only demanded for substitution-free patterns, as the property states']
 FLOORS = {'quick': {'match_single_success': 1000, 'match_single_failure': 1000, 'empty_substitution_success': 200, 'seeded_agree': 300, 'seeded_conflict': 300,
                     'match_list': 2000, 'match_list_all_ground': 200, 'match_list_empty': 10, 'match_list_identity_equation': 200, 'notation_roundtrips': 3000, 'assert_matches_calls': 3000,
-                    'notation_arity0': 50, 'nary_deconstruct': 200, 'nary_deconstruct_notation_in_head_position': 200, 'instances_spelled_through_substitution_headed_notation': 200}}
+                    'notation_arity0': 50, 'nary_deconstruct': 200, 'nary_deconstruct_any_notation': 1000, 'nary_deconstruct_notation_in_head_position': 200, 'instances_spelled_through_substitution_headed_notation': 200}}
 FLOORS['thorough'] = dict(FLOORS['quick'])
 
 
@@ -223,6 +223,18 @@ def shard(ctx):
         if N_.arity == 0:
             ctx.count('notation_arity0')
         ctx.case(('nt', key, tuple(tb.show(a) for a in args_e)), nontrivial=True)
+        if app_e[0] == 'ap' and sf:
+            # the n-ary spine of ANY notation application whose expansion is an application (the head of a definition may be a parameter):
+            # symbol and arguments as for the written-out pattern
+            ctx.count('nary_deconstruct_any_notation')
+            try:
+                h1, a1 = K.deconstruct_nary_application(app)
+                h2, a2 = K.deconstruct_nary_application(tb.to_repo(app_e, P))
+                if E(h1) != E(h2) or tuple(E(a) for a in a1) != tuple(E(a) for a in a2):
+                    ctx.violation('nary_deconstruct_differs_on_notation', 'deconstruct_nary_application differs between a notation application and its expansion',
+                                  W(notation=N_.label, pattern=app, on_notation=[str(h1)] + [str(a) for a in a1], on_expansion=[str(h2)] + [str(a) for a in a2]))
+            except Exception as ex:
+                ctx.violation('nary_deconstruct_raises', f'deconstruct_nary_application raised {type(ex).__name__}', W(notation=N_.label, pattern=app, error=repr(ex)[:200]))
         for spelled, how in ((app, 'application'), (tb.to_repo(app_e, P), 'expansion')):
             try:
                 got = N_.matches(spelled)
